@@ -95,3 +95,39 @@ func BadCompareBySubtraction(a, b []int) int {
 	}
 	return common
 }
+
+// SENTINEL
+func BadDedupSentinel(s []int) []int {
+	n := 0
+	last := -1
+	for _, v := range s {
+		if v != last {
+			s[n] = v
+			n++
+			last = v
+		}
+	}
+	return s[:n]
+}
+
+func GoodDedupIndexed(s []int) []int {
+	n := 0
+	for i, v := range s {
+		if i == 0 || v != s[i-1] {
+			s[n] = v
+			n++
+		}
+	}
+	return s[:n]
+}
+
+// GoodPositionSentinel: -1 marks "no position yet"; positions are not elements.
+func GoodPositionSentinel(s []int, x int) int {
+	first := -1
+	for i, v := range s {
+		if v == x && first == -1 {
+			first = i
+		}
+	}
+	return first
+}
